@@ -161,7 +161,7 @@ fn cmd_sim(a: &Args) -> i32 {
                     let v = VOut {
                         prop: clause[..3].to_string(),
                         clause: clause.to_string(),
-                        msg: format!("[thread-blocked] the runtime thread has been blocked for 20 s of wall time inside one scenario (no event, no timer) while the machine was responsive: a call inside rsactor blocks its thread forever; most recent unfinished call: {lastop}; {} events so far", evs.len()),
+                        msg: format!("[thread-blocked] one scenario made no progress for 20 s of wall time (no event, and the paused clock did not advance) while the machine was responsive: either a call inside rsactor blocks the runtime thread, or every task waits for another one and no timer is pending (an undetected deadlock); most recent unfinished call: {lastop}; {} events so far", evs.len()),
                         profile: prof,
                         seed,
                         pert,
